@@ -287,8 +287,8 @@ def e(ctx):
                 sides = [e_.left, e_.comparators[0]]
                 if any(isinstance(s_, ast.Name) and s_.id == rem for s_ in sides) and any(isinstance(s_, ast.Name) and s_.id != rem for s_ in sides):
                     other = [s_ for s_ in sides if not (isinstance(s_, ast.Name) and s_.id == rem)][0]
-                    # the other side must be bound from the iterated table's key/remote component
-                    ok = (other.id in bound) if bound is not None else _bound_by_enclosing_for(fi, cfg, c, other.id)
+                    # the other side must be bound to the *remote component* (index 1) of the iterated table's key
+                    ok = _is_remote_component(fi, cfg, c, other.id)
         ctx.ob("a request is failed only if its remote equals the reported remote", ok, fi, c, detail="conditions: %s" % [stmt_text(e_) for e_, _ in gs])
         # late binding: a closure created per iteration must not refer to the loop's variables by reference
         for lam in [n for n in ast.walk(elt) if isinstance(n, ast.Lambda)] + ([_nested_def(fi, elt)] if isinstance(elt, ast.Name) and _nested_def(fi, elt) is not None else []):
@@ -324,6 +324,52 @@ def e(ctx):
             ctx.ob("stoppers are created after the conversion", all(not cfg.exists_path(cfg.entry, cfg.loc1(c), avoid={n.id for n in cfg.nodes if n.kind in ("T", "F") and n.ast is not None and match("isinstance(%s, error.NetworkError)" % exc, n.ast) is not None}) for _ in [0]), fi, c)
     ci = ctx.prog.cls("error.NetworkError")
     ctx.ob("NetworkError derives from the library's error base class", ctx.prog.is_subclass(ci.qn, "aiocoap.error.Error"), None, None, construct="class NetworkError")
+
+
+def _target_path(target, name):
+    """Index path of Name `name` inside a (nested) tuple target, or None."""
+    if isinstance(target, ast.Name):
+        return () if target.id == name else None
+    if isinstance(target, (ast.Tuple, ast.List)):
+        for i, e in enumerate(target.elts):
+            p = _target_path(e, name)
+            if p is not None:
+                return (i,) + p
+    return None
+
+
+def _is_remote_component(fi, cfg, node, name):
+    """Is `name` bound to component 1 (the remote; keys are (token, remote), C02.a) of the key of the request
+    table iterated by the for loop / comprehension enclosing `node`?"""
+    p = cfg.parent.get(id(node))
+    scopes = []
+    # comprehension inside the call itself
+    for n in ast.walk(node):
+        if isinstance(n, (ast.GeneratorExp, ast.ListComp)):
+            for g in n.generators:
+                scopes.append((g.target, g.iter, None))
+    while p is not None:
+        if isinstance(p, (ast.For, ast.AsyncFor)):
+            scopes.append((p.target, p.iter, p))
+        p = cfg.parent.get(id(p))
+    for target, it, loop in scopes:
+        mode = None
+        if isinstance(it, ast.Call) and isinstance(it.func, ast.Attribute) and it.func.attr in ("items", "keys") and (chain(it.func.value) or "").endswith("_requests"):
+            mode = it.func.attr
+        elif (chain(it) or "").endswith("_requests"):
+            mode = "keys"
+        if mode is None:
+            continue
+        keypath = (0,) if mode == "items" else ()
+        path = _target_path(target, name)
+        if path is not None:
+            return path == keypath + (1,)
+        # bound by unpacking the key variable inside the loop body: (a, b) = key
+        if loop is not None:
+            for w in writes_to_name(loop, name):
+                if isinstance(w, ast.Assign) and isinstance(w.value, ast.Name) and _target_path(target, w.value.id) == keypath:
+                    return _target_path(w.targets[0], name) == (1,)
+    return False
 
 
 def _loop_bound_names(cfg, node):
@@ -448,6 +494,7 @@ R.seed("C02.e", F_TM, "            if request_remote == remote:\n               
 R.seed("C02.e", F_TM, "        if not isinstance(exception, error.NetworkError):\n            cause = exception\n            exception = error.NetworkError(str(exception))\n            exception.__cause__ = cause\n", "", "raw OSError handed to the application")
 R.seed("C02.e", F_TM, "                    lambda request=request, exception=exception: request.add_exception(\n                        exception\n                    )", "                    lambda: request.add_exception(\n                        exception\n                    )", "late-binding closure: only the last request is failed")
 R.seed("C02.e", F_TM, "        for (_, _r), (_, stopper) in self.incoming_requests.items():\n            if remote == _r:\n                stoppers.append(stopper)", "        stoppers.extend(stopper for (_, stopper) in self.incoming_requests.values())", "incoming requests of all remotes stopped")
+R.seed("C02.e", F_TM, "        for (_, _r), (_, stopper) in self.incoming_requests.items():\n            if remote == _r:", "        for (_r, _), (_, stopper) in self.incoming_requests.items():\n            if remote == _r:", "compares the token component with the remote: nothing is ever stopped")
 R.seed("C02.f", "aiocoap/protocol.py", "        if self.observation is None:\n            if not first_event.is_last:", "        if self.observation is None:\n            self.response.set_result(first_event.message)\n            if not first_event.is_last:", "second completion")
 R.seed("C02.f", "aiocoap/protocol.py", "            self.response.set_exception(first_event.exception)\n            if not isinstance(first_event.exception, error.Error):", "            if not isinstance(first_event.exception, error.Error):", "error event leaves the future pending")
 R.seed("C02.h", "aiocoap/transports/udp6.py", "        return self.sockaddr[:-1] == other.sockaddr[:-1]", "        return self.sockaddr[:1] == other.sockaddr[:1]", "port ignored")
